@@ -294,14 +294,38 @@ impl World {
     fn do_drop(&mut self, i: usize) {
         let o = &mut self.ops[i];
         o.dropped = true;
-        let was_inflight = o.ud.is_some() && simk::with(|s| s.find_req_by_user_data(o.ud.unwrap()).is_some());
-        let _ = was_inflight;
+        // C06 oracle: an operation the kernel still works on (request in flight, or its submission
+        // still queued) must be cancelled by exactly one request naming it, when the queue has room.
+        let my_fd = fake_fd(i);
+        let (queued, inflight, room) = simk::with(|s| {
+            let pend = s.pending_sqes();
+            (
+                pend.iter().any(|q| q.opcode != abi::OP_ASYNC_CANCEL && q.fd == my_fd),
+                o.ud.is_some_and(|ud| s.find_req_by_user_data(ud).is_some()),
+                (pend.len() as u32) < s.sq_entries,
+            )
+        });
+        let cancels_before = simk::with(|s| s.pending_sqes().iter().filter(|q| q.opcode == abi::OP_ASYNC_CANCEL).count());
         let fut = o.fut.take();
         let r = std::panic::catch_unwind(std::panic::AssertUnwindSafe(move || drop(fut)));
         if r.is_err() {
             let msg = self.silent.lock().unwrap().take().unwrap_or_default();
             self.obs.push(14);
             self.fail(format!("dropping operation {i} panicked: {msg}"));
+        }
+        let cancels: Vec<abi::Sqe> = simk::with(|s| s.pending_sqes().into_iter().filter(|q| q.opcode == abi::OP_ASYNC_CANCEL).collect());
+        let new_cancels = cancels.len() - cancels_before.min(cancels.len());
+        if (queued || inflight) && room {
+            let mine = self.ops[i].ud.or_else(|| {
+                // not consumed yet: the user_data is in the queued submission
+                simk::with(|s| s.pending_sqes().iter().find(|q| q.opcode != abi::OP_ASYNC_CANCEL && q.fd == my_fd).map(|q| q.user_data))
+            });
+            let named = cancels.iter().rev().take(new_cancels).filter(|q| Some(q.addr) == mine).count();
+            if new_cancels != 1 || named != 1 {
+                self.fail(format!("operation {i} was dropped while the kernel still works on it and the queue had room, but {new_cancels} cancellation request(s) were queued, {named} naming it"));
+            }
+        } else if !queued && !inflight && new_cancels != 0 && self.ops[i].posted.iter().all(|c| c.more) && self.ops[i].attempts.is_empty() {
+            self.fail(format!("operation {i} was never started but dropping it queued a cancellation request"));
         }
         self.drain_frees();
     }
